@@ -127,6 +127,12 @@ def _corrupt_map(e):
                 r[0]["tok"][1] += 1
                 return True
         return False
+    if e["op"] == "iterate":
+        for r in o["outs"]:
+            if r and isinstance(r[0], list):
+                r[0][1] += 1
+                return True
+        return False
     if e["op"] == "ordering":
         if o["toks"]:
             o["gets"][0][1] += 1
@@ -177,20 +183,22 @@ PROPS["C03"] = dict(
 
 PROPS["C04"] = dict(
     level="model_checking",
-    level_text="The lookup algorithm of the code (binary search with an arbitrary probe inside the window, walk back over equal keys, insertion index - 1 when absent) is a TLA+ state machine and TLC checks that it refines the declarative relation LookupOK for every ordered position list (repetitions included) and every query of a bounded grid (incl. u32::MAX stand-ins). Every enumerated list is built in the real crate three ways and queried at every grid position; ordering/get_token agreement is observed for maps produced by decoding, builder, raw constructor, rewrite, flatten, adjust_mappings and reload; TLC judges every answer.",
+    level_text="The lookup algorithm of the code (binary search with an arbitrary probe inside the window, walk back over equal keys, insertion index - 1 when absent) is a TLA+ state machine and TLC checks that it refines the declarative relation LookupOK for every ordered position list (repetitions included) and every query of a bounded grid (incl. u32::MAX stand-ins). Every enumerated list is built in the real crate three ways and queried at every grid position; ordering/get_token agreement is observed for maps produced by decoding, builder, raw constructor, rewrite, flatten, adjust_mappings and reload; the token iterator is a cursor machine (TokenIter.tla: next / nth / size_hint, then skip / step_by / last / count / collect) whose one-next-at-a-time form TLC checks against closed forms for every bounded session, each replayed on the real iterator; TLC judges every answer.",
     level_note="'first token at that position in iteration order' is judged against the crate's own observed iteration order, as the statement says (the sort is unstable)",
-    technique="TLA+ binary-search machine refining a declarative lookup relation (MC_Lookup), TLC bounded model checking, trace validation of real lookup_token/tokens()/get_token results",
+    technique="TLA+ binary-search machine refining a declarative lookup relation (MC_Lookup) and iterator cursor machine (MC_TokenIter), TLC bounded model checking, replay of TLC-enumerated cases and trace validation of real lookup_token/tokens()/get_token results",
     mc=[
         dict(module="MC_Lookup", cfg="MC_Lookup_quick.cfg", tiers=("quick",), workers=8),
         dict(module="MC_Lookup", cfg="MC_Lookup_thorough.cfg", tiers=("thorough",), workers=14, timeout=3400, heap="24g"),
+        dict(module="MC_TokenIter", cfg="MC_TokenIter_quick.cfg", tiers=("quick",), workers=4),
+        dict(module="MC_TokenIter", cfg="MC_TokenIter_thorough.cfg", tiers=("thorough",), workers=8),
     ],
     proofs=[dict(file="proofs/PosOrder.tla",
                  claim="the order on generated positions used by every lookup is a total preorder with PosLt as its strict part, and the greatest position not after a query is unique (unbounded, TLAPS/SMT)")],
     trace="Trace_Map",
     drive=dict(quick=dict(n=300, size=4), thorough=dict(n=6000, size=12)),
-    nontrivial=lambda e: e["out"].get("k") == "ok" and ((e["op"] == "lookups" and len(e["args"]["toks"]) >= 2) or (e["op"] == "ordering" and len(e["out"]["toks"]) >= 2)),
+    nontrivial=lambda e: e["out"].get("k") == "ok" and ((e["op"] in ("lookups", "iterate") and len(e["args"]["toks"]) >= 2) or (e["op"] == "ordering" and len(e["out"]["toks"]) >= 2)),
     corrupt=_corrupt_map,
-    rule="cases: every ordered position list of MC_Lookup (<= MaxToks tokens, repetitions) x 25 queries (grid, off-grid, u32::MAX), three construction routes; seeded random maps (<= ~100..300 tokens, heavy position sharing) and index documents, each also through rewrite / adjust_mappings / reload / flatten, ~34 queries each around tokens; distinct = distinct (map, query list); non-trivial = map with >= 2 tokens",
+    rule="cases: every iterator session of MC_TokenIter (<= MaxSteps stepping calls + one consuming call); every ordered position list of MC_Lookup (<= MaxToks tokens, repetitions) x 25 queries (grid, off-grid, u32::MAX), three construction routes; seeded random maps (<= ~100..300 tokens, heavy position sharing) and index documents, each also through rewrite / adjust_mappings / reload / flatten, ~34 queries each around tokens; distinct = distinct (map, query list); non-trivial = map with >= 2 tokens",
     assumptions=COMMON_ASSUMPTIONS,
 )
 
